@@ -93,7 +93,7 @@ func Load(o LoadOpts) (*World, error) {
 	if err != nil {
 		return nil, err
 	}
-	w := &World{Dir: o.Dir, Pkgs: map[string]*packages.Package{}, Funcs: map[string]*Func{}, byObj: map[*types.Func]*Func{}}
+	w := &World{Dir: o.Dir, Pkgs: map[string]*packages.Package{}, Funcs: map[string]*Func{}, byObj: map[*types.Func]*Func{}, memo: map[string]any{}}
 	w.Config = strings.Join(o.Env, " ")
 	if o.Tags != "" {
 		w.Config += " tags=" + o.Tags
@@ -103,7 +103,13 @@ func Load(o LoadOpts) (*World, error) {
 	}
 	for _, p := range pkgs {
 		if len(p.Errors) > 0 {
-			return nil, fmt.Errorf("package %s does not type-check: %v", p.PkgPath, p.Errors[0])
+			msg := ""
+			for i, e := range p.Errors {
+				if i < 4 {
+					msg += " | " + e.Error()
+				}
+			}
+			return nil, fmt.Errorf("package %s does not type-check:%s", p.PkgPath, msg)
 		}
 		k := pkgKey(p.PkgPath)
 		if k == "" {
